@@ -25,6 +25,7 @@ type Decision struct {
 	Kind string `json:"kind"`
 	N    int    `json:"n"`
 	Pick int    `json:"pick"`
+	Val  uint64 `json:"val,omitempty"` // enum decisions: the candidate value the options are about
 }
 
 type SymRecord struct {
@@ -72,6 +73,8 @@ type Path struct {
 	model  Model // satisfies the current path condition, or nil if unknown
 	known  map[int]bool
 	site   *frame
+	decVal uint64
+	curFr  *frame
 	pc     []*Term
 
 	globals map[*ssa.Global]*Value
@@ -134,16 +137,22 @@ func (p *Path) assume(c *Term) {
 	p.pc = append(p.pc, c)
 	p.sol.Assert(c)
 	p.learn(c, true)
-	if p.model == nil {
-		r, m := p.sol.CheckT("assume", nil, true)
-		switch r {
-		case ResUnsat:
-			panic(pathEnd{"assume"})
-		case ResSat:
-			p.model = m
-		default:
-			p.res.FeasUnknown++
-		}
+	// feasibility is established lazily (next decision, cover, or path end)
+}
+
+// ensureFeasible ends the path if the path condition is unsatisfiable.
+func (p *Path) ensureFeasible() {
+	if p.model != nil {
+		return
+	}
+	r, m := p.sol.CheckT("feasible", nil, true)
+	switch r {
+	case ResUnsat:
+		panic(pathEnd{"assume"})
+	case ResSat:
+		p.model = m
+	default:
+		p.res.FeasUnknown++
 	}
 }
 
@@ -269,7 +278,24 @@ func (p *Path) evalModel(c *Term) (uint64, bool) {
 
 // choose picks one of the mutually exclusive options; alternatives that are
 // feasible are queued as new prefixes.
-func (p *Path) choose(kind string, opts []*Term) int {
+func (p *Path) choose(kind string, opts []*Term) (pick int) {
+	if debugPath {
+		where := ""
+		if p.curFr != nil {
+			where = p.curFr.fn.String()
+		}
+		var os0 []string
+		for _, o := range opts {
+			os0 = append(os0, o.String())
+		}
+		defer func() {
+			var os1 []string
+			for _, o := range opts {
+				os1 = append(os1, p.reduce(o).String())
+			}
+			fmt.Printf("DECIDE %s in %s -> %d\n   opts: %v\n   reduced: %v\n", kind, where, pick, os0, os1)
+		}()
+	}
 	n := len(opts)
 	if len(p.known) > 0 {
 		ro := make([]*Term, n)
@@ -326,6 +352,14 @@ func (p *Path) choose(kind string, opts []*Term) int {
 		if v, ok := p.evalModel(o); ok && v == 1 {
 			feas[i], models[i] = true, p.model
 			cnt++
+			if debugPath {
+				fmt.Printf("   option %d feasible by cached model; PC check under model:\n", i)
+				for _, c := range p.pc {
+					if x, ok := p.evalModel(c); !ok || x != 1 {
+						fmt.Printf("      STALE MODEL: violates %s\n", c.String())
+					}
+				}
+			}
 		}
 	}
 	for {
@@ -402,7 +436,7 @@ func (p *Path) choose(kind string, opts []*Term) int {
 		// the path condition itself must have been infeasible (or unknown)
 		panic(pathEnd{"infeasible at " + kind})
 	}
-	pick := -1
+	pick = -1
 	for i := range opts {
 		if !feas[i] {
 			continue
@@ -413,15 +447,17 @@ func (p *Path) choose(kind string, opts []*Term) int {
 		}
 		np := make([]Decision, len(p.decs), len(p.decs)+1)
 		copy(np, p.decs)
-		np = append(np, Decision{kind, n, i})
+		np = append(np, Decision{kind, n, i, p.decVal})
 		p.res.NewPrefixes = append(p.res.NewPrefixes, np)
 	}
-	p.decs = append(p.decs, Decision{kind, n, pick})
+	p.decs = append(p.decs, Decision{kind, n, pick, p.decVal})
 	if !opts[pick].IsTrue() {
 		p.addPC(opts[pick], models[pick])
 	}
 	return pick
 }
+
+func init() { _ = os.Stderr }
 
 // branch decides a boolean condition.
 func (p *Path) branch(c *Term) bool {
@@ -451,6 +487,7 @@ func (p *Path) enumerate(v Value, what string) int64 {
 	if !ok {
 		panic(engineError{fmt.Sprintf("%s: not an integer: %T", what, v)})
 	}
+	skipRecorded := false
 	for i := 0; ; i++ {
 		if t.IsConst() {
 			return sext64(t.K, t.W)
@@ -458,21 +495,38 @@ func (p *Path) enumerate(v Value, what string) int64 {
 		if i >= p.eng.maxFan {
 			panic(unsupported{what + ": more than " + fmt.Sprint(p.eng.maxFan) + " feasible values for a symbolic size"})
 		}
-		if p.model == nil {
-			r, m := p.sol.Check(nil, true)
-			if r != ResSat {
-				panic(unsupported{what + ": no model available to enumerate a symbolic size"})
+		var mv uint64
+		recorded := !skipRecorded && p.di < len(p.prefix) && p.prefix[p.di].Kind == "enum"
+		if recorded {
+			// replay: the candidate value is part of the recorded decision
+			// (it came from a solver model and is not a function of the path)
+			mv = p.prefix[p.di].Val
+		} else {
+			// exploring — or replaying a point where the value was forced
+			// (no decision was recorded): any model gives the forced value
+			if p.model == nil {
+				r, m := p.sol.Check(nil, true)
+				if r != ResSat {
+					panic(unsupported{what + ": no model available to enumerate a symbolic size"})
+				}
+				p.model = m
 			}
-			p.model = m
+			var ok bool
+			mv, ok = p.evalModel(t)
+			if !ok {
+				panic(unsupported{what + ": cannot evaluate symbolic size"})
+			}
 		}
-		mv, ok := p.evalModel(t)
-		if !ok {
-			panic(unsupported{what + ": cannot evaluate symbolic size"})
-		}
+		diBefore := p.di
 		k := p.ctx.BV(mv, t.W)
-		if p.choose("enum", []*Term{p.ctx.Eq(t, k), p.ctx.Ne(t, k)}) == 0 {
+		p.decVal = mv
+		pick := p.choose("enum", []*Term{p.ctx.Eq(t, k), p.ctx.Ne(t, k)})
+		p.decVal = 0
+		if pick == 0 {
 			return sext64(mv, t.W)
 		}
+		// the recorded decision belonged to a later enumeration: do not reuse it here
+		skipRecorded = recorded && p.di == diBefore
 	}
 }
 
@@ -539,6 +593,7 @@ func (p *Path) check(c *Term, label string, pos string) {
 }
 
 func (p *Path) cover(tag string) {
+	p.ensureFeasible()
 	p.res.Covers[tag] = true
 }
 
@@ -550,6 +605,12 @@ func (p *Path) goPanic(v Value) {
 
 // goPanicRuntime raises a Go runtime error inside the interpreted program.
 func (p *Path) goPanicRuntime(msg string) {
+	if p.curFr != nil {
+		msg += " (in " + p.curFr.fn.String() + ")"
+	}
+	if p.sol.log != nil {
+		p.sol.send("; GOPANIC " + strings.ReplaceAll(msg, "\n", " ") + "\n")
+	}
 	panic(targetPanic{Iface{T: p.rtErrT, V: "runtime error: " + msg}})
 }
 
@@ -572,6 +633,9 @@ func decisionsString(ds []Decision) string {
 			sb.WriteByte(' ')
 		}
 		fmt.Fprintf(&sb, "%s:%d/%d", d.Kind, d.Pick, d.N)
+		if d.Kind == "enum" {
+			fmt.Fprintf(&sb, "=%d", d.Val)
+		}
 	}
 	return sb.String()
 }
